@@ -153,9 +153,10 @@ func cmdCheck(args []string) {
 	var vcs []*FnVC
 	var obls []*Obligation
 	for _, f := range fns {
-		vc := eng.buildVC(f)
-		vcs = append(vcs, vc)
-		obls = append(obls, vc.obls...)
+		for _, vc := range eng.buildAll(f) {
+			vcs = append(vcs, vc)
+			obls = append(obls, vc.obls...)
+		}
 	}
 	tS := time.Now()
 	dischargeAll(obls, timeout, *par, *tier == "thorough")
